@@ -1395,7 +1395,9 @@ def rule_nusetup(ctx):
 def rules(tier):
     from . import carry, c04
     from . import precision
-    return [rule_precombine, rule_permute, rule_nusetup, rule_reselect, rule_islinear, rule_decision, rule_swap, rule_bound, rule_space, rule_sv, rule_sib, rule_snapshot, rule_rho, rule_rescale, rule_memorder, rule_extent, rule_kernel,
+    from . import inplace
+    return [inplace.make_rule("R-C13-overwrite", lambda f: f["d"]["krate"] == "linfa_svm", 2, "the support vector machines"),
+            rule_precombine, rule_permute, rule_nusetup, rule_reselect, rule_islinear, rule_decision, rule_swap, rule_bound, rule_space, rule_sv, rule_sib, rule_snapshot, rule_rho, rule_rescale, rule_memorder, rule_extent, rule_kernel,
             carry.make_clone_rule("R-C13-clone", {"linfa_svm", "linfa_kernel"}, 6), carry.make_setter_rule("R-C13-override", {"linfa_svm"}, 6), c04.make_carry_rule("R-C13-carry", {"SvmParams"}, 6),
             precision.make_rule("R-C13-precision", lambda f: f["d"]["krate"] in ("linfa_svm", "linfa_kernel"), 100, "linfa-svm and linfa-kernel"),
             carry.make_accessor_rule("R-C13-accessor", {"linfa_svm", "linfa_kernel"}, 3), carry.make_ctor_rule("R-C13-ctor", {"linfa_svm", "linfa_kernel"}, 3)]
